@@ -49,6 +49,18 @@ static int all_pct_legal(const struct sv_view *v) {
 static int txt_same(const struct sv_txt *a, const struct sv_txt *b) { return sv_txt_eq(a, b); }
 static int no_pct(const struct sv_txt *t) { return !sv_contains(t, _UT('%')); }
 
+/* the normal form of v's path differs between "relative-path reference" rules (leading ".." and the "./" guard in front of a
+ * segment with ':' are kept) and the rules for a path under an authority */
+static int netpath_keeps_up(const struct sv_view *v) {
+	struct sv_path a, b; struct sn_buf st1[SV_MAXSEG], st2[SV_MAXSEG];
+	struct sv_view w = *v;
+	w.hostkind = VU_HK_NONE; w.path.rooted = 0;   /* as the library sees it: no scheme, absolutePath flag clear => relative */
+	spec_norm_path(&a, st1, &w);
+	spec_norm_path(&b, st2, v);
+	a.rooted = b.rooted;                          /* (only the segment lists are compared) */
+	return !sv_path_eq(&a, &b);
+}
+
 void harness(void) {
 	URI_TYPE(Uri) u;
 	struct sv_view v0, v1;
@@ -167,9 +179,15 @@ void harness(void) {
 		t = sn_txt(&e_query);  VPOST("C08", txt_same(&v1.query, (mask & URI_NORMALIZE_QUERY) ? &t : &v0.query), "NormalizeSyntax: query normal iff selected, else unchanged");
 		t = sn_txt(&e_frag);   VPOST("C08", txt_same(&v1.fragment, (mask & URI_NORMALIZE_FRAGMENT) ? &t : &v0.fragment), "NormalizeSyntax: fragment normal iff selected, else unchanged");
 		if (mask & URI_NORMALIZE_PATH) {
-			VPOST_KF("C08,C09", KF_C08_NETPATH_KEEPS_DOTDOT, (v0.scheme.len < 0 && v0.hostkind != VU_HK_NONE),
+			/* known-finding region: a network-path reference ("//h/..") whose path has a leading ".." left after dot removal -
+			 * the library treats every scheme-less URI as relative and keeps it; narrowed to the inputs where that matters */
+			VPOST_KF("C08,C09", KF_C08_NETPATH_KEEPS_DOTDOT, (v0.scheme.len < 0 && v0.hostkind != VU_HK_NONE && netpath_keeps_up(&v0)),
 				unspecified || sv_path_eq(&v1.path, &e_path), "NormalizeSyntax: path == dot-segment removal of the percent-normalized segments (leading '..' kept only for relative-path references)",
 				"C08-network-path-reference-treated-as-relative");
+			/* sv_path_eq identifies the empty path with the lone empty segment (they are the same text without an
+			 * authority); under an authority they are "" and "/" - different texts */
+			VPOST("C08,C09", v0.hostkind == VU_HK_NONE || unspecified || (v0.scheme.len < 0 && netpath_keeps_up(&v0)) || ((v1.path.n == 0) == (e_path.n == 0)),
+				"NormalizeSyntax: under an authority an empty path stays empty and a path that reduces to '/' keeps its '/'");
 		} else {
 			VPOST("C08", sv_path_eq(&v1.path, &v0.path), "NormalizeSyntax: path unchanged when not selected");
 		}
